@@ -7,7 +7,7 @@ from checks import docs, loadlib, loadcheck
 
 PROP = 'C01'
 TARGETS = ['theories/Proofs/EscapeProofs.v', 'theories/Proofs/IntTextProofs.v', 'theories/Proofs/GrammarObligations.v',
-           'theories/Proofs/TokenizerProofs.v', 'theories/Run/RunLoad.v']
+           'theories/Proofs/TokenizerProofs.v', 'theories/Proofs/RoundTripProofs.v', 'theories/Run/RunLoad.v', 'theories/Run/RunRT.v']
 RULE = ('documents derived from the regenerated grammar (all element kinds reachable, six versions), layouts canonical / random / one line, '
         'LF and CRLF, decimal / hex / exponent numbers at and around the limits, strings with all escapes and Unicode, both comment kinds '
         'at block level and everywhere, IF_DATA absent / empty / uninterpreted / described by an A2ML block; each loaded, written and reloaded '
@@ -83,6 +83,9 @@ def distribution(cases, res):
             'with_if_data': sum(1 for c in cases if 'IF_DATA' in c['text']),
             'crlf': sum(1 for c in cases if '\r\n' in c['text']),
             'with_comments': sum(1 for c in cases if '/*' in c['text'] or '//' in c['text'])}
+
+
+ROUNDTRIP_STAGE = True
 
 
 def extra_stage(v, tier, rng, impl):
